@@ -135,6 +135,9 @@ ROWS = {
                             acc="for (size_t i_ = 0; i_ < {n}.size(); i_++) acc += {w} * (long)({n}[i_] % 100);",
                             lib_set="for (size_t i_ = 0; i_ < {n}.size(); i_++) {n}[i_] = ({n}[i_] % 100) + {w}; {n}.push_back((int)(acc % 9));",
                             lib_out="vt_arr_int({n}.data(), (long){n}.size());", vals=VEC_VALS),
+    # docs/cwrapper.rst (C_return_code example): a vector of strings filled by the library
+    "vecstr_out": dict(yaml="std::vector< std::string > &{n} +intent(out)", cxx="std::vector<std::string> &{n}", ty="arrs", intent="out",
+                       lib_set='{n}.clear(); {n}.push_back("dog"); {n}.push_back("bird");', lib_out="vt_int((long){n}.size());", vals=VEC_VALS),
     "cls_p": dict(yaml="Cls *{n}", cxx="Cls *{n}", ty="obj", intent="in",
                   lib_in="vt_obj({n});", acc="acc += {w} * (long)({n}->value % 100);",
                   c_decl="", c_arg="&{obj}", c_in="vt_obj({obj}.addr);", vals=["1"] * 6, needs_obj=True),
